@@ -28,19 +28,41 @@ LIFECYCLE = {"PENDING": {"ASSIGNED"}, "ASSIGNED": {"RUNNING", "SUSPENDING", "FAI
              "SUSPENDING": {"PENDING"}, "COMPLETED": set(), "FAILED": {"ASSIGNED"}}
 
 
+def _native_tables():
+    """VALID_TRANSITIONS and ASSIGNABLE_STATES as the real module computes them (child process, so nothing leaks into the checker)"""
+    import subprocess
+    code = ("import json, logging; logging.disable(logging.CRITICAL)\n"
+            "import eudoxia.workload.runtime_status as m\n"
+            "print('TABLES ' + json.dumps({'vt': {k.name: sorted(x.name for x in v) for k, v in m.VALID_TRANSITIONS.items()},"
+            " 'as': sorted(x.name for x in m.ASSIGNABLE_STATES)}))")
+    try:
+        pr = subprocess.run([sys.executable, "-c", code], capture_output=True, text=True, timeout=120, env=dict(os.environ, PYTHONPATH=REPO))
+        line = [l for l in pr.stdout.splitlines() if l.startswith("TABLES ")]
+        return json.loads(line[-1][7:]) if line else None
+    except Exception:
+        return None
+
+
 def scan_lifecycle_table(prog, tags):
     import ast
-    node = prog.const_nodes.get("eudoxia.workload.runtime_status:VALID_TRANSITIONS")
-    got, why = None, ""
-    try:
-        if isinstance(node, ast.Dict):
-            got = {k.attr: {e.attr for e in v.elts} for k, v in zip(node.keys, node.values)}
-        else:
-            why = "VALID_TRANSITIONS is no longer a dictionary literal"
-    except Exception as e:
-        why = f"VALID_TRANSITIONS cannot be read: {e}"
-    ok = got == LIFECYCLE
-    if got is not None and not ok:
+    got, why, assignable = None, "", None
+    nat = _native_tables()
+    if nat is not None:
+        got = {k: set(v) for k, v in nat["vt"].items()}
+        assignable = set(nat["as"])
+    else:
+        node = prog.const_nodes.get("eudoxia.workload.runtime_status:VALID_TRANSITIONS")
+        try:
+            if isinstance(node, ast.Dict):
+                got = {k.attr: {e.attr for e in v.elts} for k, v in zip(node.keys, node.values)}
+            else:
+                why = "VALID_TRANSITIONS is no longer a dictionary literal and the module cannot be imported"
+        except Exception as e:
+            why = f"VALID_TRANSITIONS cannot be read: {e}"
+    ok = got == LIFECYCLE and (assignable is None or assignable == {"PENDING", "FAILED"})
+    if got == LIFECYCLE and not ok:
+        why = f"ASSIGNABLE_STATES is {sorted(assignable)}; by the statement's lifecycle the states that can be assigned are FAILED and PENDING"
+    if got is not None and got != LIFECYCLE:
         extra = sorted(f"{a}->{b}" for a, bs in got.items() for b in bs if b not in LIFECYCLE.get(a, set()))
         missing = sorted(f"{a}->{b}" for a, bs in LIFECYCLE.items() for b in bs if b not in got.get(a, set()))
         why = f"edges not in the statement: {extra}; edges of the statement missing: {missing}"
